@@ -399,7 +399,7 @@ def run(ctx):
 
     _header_entry(ctx)
     _registered_hash(ctx)
-
+    _frozen_after_recording(ctx)
 
 def _registered_hash(ctx):
     """R11.5: names are made unique through the _wrappers_by_hash registry; the
@@ -592,3 +592,47 @@ def _header_entry(ctx):
     pushes = [n for n in fe.walk() if n.get("k") == "call" and callee_short(n) == "push_back" and field_of(n.get("this")) == "InterrogateFunctionWrapper::_parameters"]
     ctx.ob("R11.4", "entry-push-once-per-param", len(pushes) == 1 and next(enclosing_loops(fe, pushes[0]), None) is not None,
            fe.loc(pushes[0]) if pushes else fe.loc(), "one push_back per element of _parameters")
+
+
+
+def _frozen_after_recording(ctx):
+    """R11.6: make_wrapper_entry() copies fields of the FunctionRemap into the database record right after the remap
+    is created (record_function).  The code generator reads the same fields later.  They agree iff nobody writes these
+    fields from outside once make_function_remap() has returned the remap."""
+    db = ctx.db
+    ctx.rule("R11.6", "the FunctionRemap fields that make_wrapper_entry() copies into the database are written from outside the class only inside make_function_remap(), i.e. before the remap is recorded; later writers (e.g. the hash-collision branch) would make code and database disagree")
+    mw = db.fn("FunctionRemap::make_wrapper_entry")
+    copied = set()
+    for x in mw.walk():
+        if x.get("k") == "mem" and not x.get("method") and x.get("n", "").startswith("FunctionRemap::") and x["n"].count("::") == 1:
+            b = base_of(x)
+            if b is None or b.get("k") == "this":
+                copied.add(x["n"].split("::")[-1])
+    # only the fields that end up in the record as they are: those on the right-hand side of an assignment to the entry
+    direct = set()
+    for x in mw.walk():
+        t = assigned_target(x)
+        if t and (field_of(t[0]) or "").startswith("InterrogateFunctionWrapper::"):
+            r = strip_casts(peel(t[1]))
+            if r is not None and r.get("k") == "mem" and r.get("n", "").startswith("FunctionRemap::"):
+                direct.add(r["n"].split("::")[-1])
+    direct |= {"_wrapper_name"} & copied
+    if "_unique_name" not in direct:
+        ctx.broken("make_wrapper_entry no longer copies _unique_name: R11.6 must be re-read")
+    n = 0
+    for f in db.functions:
+        if "/interrogate/" not in f.file or f.name.startswith("FunctionRemap::"):
+            continue
+        for x in f.walk():
+            t = assigned_target(x)
+            if not t:
+                continue
+            fl = field_of(t[0]) or ""
+            if not fl.startswith("FunctionRemap::") or fl.split("::")[-1] not in direct:
+                continue
+            n += 1
+            ok = f.name == "InterfaceMaker::make_function_remap"
+            ctx.ob("R11.6", "%s|writes|%s" % (f.name, fl.split("::")[-1]), ok, f.loc(x),
+                   "`%s`: %s" % (show(x)[:70], "before the remap is recorded" if ok else "written after make_wrapper_entry() may already have copied it into the database"))
+    ctx.floor("R11.6", "external writes of recorded FunctionRemap fields", n, 2)
+
